@@ -257,6 +257,15 @@ pub fn run(mut run: Run) -> i32 {
                 Polygon::new(ring_ls(&orient_ring(&p.shell, !cw)), p.holes.iter().map(|h| ring_ls(&orient_ring(h, cw))).collect())
             })
             .collect();
+        // empty members (an empty polygon first, in the middle, or last) must not change the result
+        let mut polys = polys;
+        let empty = Polygon::<f64>::new(LineString::new(vec![]), vec![]);
+        match t % 4 {
+            1 => polys.insert(0, empty),
+            2 => polys.insert(1, empty),
+            3 => polys.push(empty),
+            _ => {}
+        }
         acc.evals += 2;
         let r = guard(|| {
             let uu = unary_union(&polys);
@@ -278,7 +287,7 @@ pub fn run(mut run: Run) -> i32 {
             segs.extend(o.ag.segs());
         }
         let arr = arrangement(&segs, &[]);
-        acc.class(format!("unary n{} cw{} shells{}", polys.len(), cw, uu.0.len().min(3)));
+        acc.class(format!("unary n{} cw{} shells{} empty-member-pos{}", polys.len(), cw, uu.0.len().min(3), t % 4));
         acc.sample(idx, || json!({"members": format!("{:?}", polys), "unary_union": format!("{:?}", uu)}));
         for q in &arr.faces {
             if segs.iter().any(|&(s, e)| d2_hp_seg(q, s, e).f() < DELTA2) {
